@@ -8,6 +8,10 @@ import (
 	"time"
 
 	"github.com/cube2222/octosql/aggregates"
+	"github.com/cube2222/octosql/config"
+	csvsource "github.com/cube2222/octosql/datasources/csv"
+	jsonsource "github.com/cube2222/octosql/datasources/json"
+	linessource "github.com/cube2222/octosql/datasources/lines"
 	"github.com/cube2222/octosql/execution"
 	"github.com/cube2222/octosql/execution/nodes"
 	"github.com/cube2222/octosql/functions"
@@ -114,6 +118,11 @@ func Env(tables []*Table) physical.Environment {
 		Datasources: &physical.DatasourceRepository{
 			Databases: map[string]func() (physical.Database, error){},
 			FileHandlers: map[string]func(ctx context.Context, name string, options map[string]string) (physical.DatasourceImplementation, physical.Schema, error){
+				// the real file datasources, as wired in cmd/root.go (reachable as stdin.csv, stdin.json, ...)
+				"csv":   csvsource.Creator(','),
+				"tsv":   csvsource.Creator('\t'),
+				"json":  jsonsource.Creator,
+				"lines": linessource.Creator,
 				"sym": func(ctx context.Context, name string, options map[string]string) (physical.DatasourceImplementation, physical.Schema, error) {
 					for _, t := range tables {
 						if t.Name+".sym" == name {
@@ -163,7 +172,11 @@ func typecheckExpr(ctx context.Context, expr logical.Expression, env physical.En
 // collecting the emitted records in order. planErr reports parse/typecheck errors separately
 // from run-time errors.
 func Run(sql string, tables []*Table, optimize bool) (res Result, planErr, runErr error) {
-	ctx := context.Background()
+	// cmd/root.go puts the configuration into the context; the real file datasources read it
+	cfg := &config.Config{}
+	cfg.Files.BufferSizeBytes = 4096
+	cfg.Files.JSON.MaxLineSizeBytes = 4096
+	ctx := config.ContextWithConfig(context.Background(), cfg)
 	statement, err := sqlparser.Parse(sql)
 	if err != nil {
 		return res, err, nil
